@@ -38,8 +38,10 @@ type rowSrc struct {
 
 // returnsParam reports i if every return of fn yields (as result 0) its i-th
 // parameter (identity helpers such as scrubRow), else -1.
-func returnsParam(fn *ssa.Function) int {
-	if fn == nil || fn.Blocks == nil {
+func returnsParam(fn *ssa.Function) int { return returnsParamDepth(fn, 0) }
+
+func returnsParamDepth(fn *ssa.Function, depth int) int {
+	if fn == nil || fn.Blocks == nil || depth > 3 {
 		return -1
 	}
 	idx := -2
@@ -50,6 +52,21 @@ func returnsParam(fn *ssa.Function) int {
 				continue
 			}
 			v := core.Resolve(r.Results[0])
+			// a wrapper around another identity helper: `func (t *table) scrubRow(r) (…) { return scrubRow(r, t.cols()) }`
+			var inner *ssa.Call
+			switch x := v.(type) {
+			case *ssa.Extract:
+				if c, isC := x.Tuple.(*ssa.Call); isC && x.Index == 0 {
+					inner = c
+				}
+			case *ssa.Call:
+				inner = x
+			}
+			if inner != nil {
+				if j := returnsParamDepth(inner.Call.StaticCallee(), depth+1); j >= 0 && j < len(inner.Call.Args) {
+					v = core.Resolve(inner.Call.Args[j])
+				}
+			}
 			p, ok := v.(*ssa.Parameter)
 			if !ok {
 				return -1
